@@ -489,8 +489,21 @@ def _sh_child(sc, prefix, stop_at, q):
         cad = sc["cad"]
         h5 = {k: cad.get(k, 0) for k in ("data", "coordinates", "velocities", "forces", "nonadiabatic") if cad.get(k, 0)}
         out = {"molid": sc.get("molid", [0]), "prefix": prefix, "print every": 0, "checkpoint every": cad.get("ckpt", 0), "xyz": cad.get("xyz", 0), "h5": h5}
-        mol = Molecule(Constants(), sp, coords, species)
-        dyn = ND.SurfaceHoppingDynamics(seqm_parameters=sp, timestep=sc.get("dt", 0.5), Temp=sc.get("temp", 300.0), output=out, initial_state=1)
+        run_kw = {}
+        resume = ND.SurfaceHoppingDynamics.run_from_checkpoint
+        if sc.get("engine", "sh") == "xlesmd":
+            # excited-state extended-Lagrangian engine (real engine only): the active excited state and its amplitudes are propagated alongside the density
+            import seqm.MolecularDynamics as MD
+            sp = {"method": "AM1", "scf_eps": 1e-10, "scf_converger": [2], "excited_states": {"n_states": sc.get("n_states", 3), "cis_tol": 1e-9}, "active_state": 1, "analytical_gradient": [True]}
+            h5 = {k: v for k, v in h5.items() if k != "nonadiabatic"}
+            out["h5"] = h5
+            mol = Molecule(Constants(), sp, coords, species)
+            dyn = MD.XL_ESMD(xl_bomd_params={"k": sc.get("k", 6)}, seqm_parameters=sp, timestep=sc.get("dt", 0.2), Temp=sc.get("temp", 300.0), output=out)
+            run_kw = {"dmprop": "SCF"}
+            resume = MD.XL_ESMD.run_from_checkpoint
+        else:
+            mol = Molecule(Constants(), sp, coords, species)
+            dyn = ND.SurfaceHoppingDynamics(seqm_parameters=sp, timestep=sc.get("dt", 0.5), Temp=sc.get("temp", 300.0), output=out, initial_state=1)
         if stop_at is not None:
             orig = dyn.save_checkpoint
 
@@ -501,9 +514,9 @@ def _sh_child(sc, prefix, stop_at, q):
             dyn.save_checkpoint = w
         with contextlib.redirect_stdout(io.StringIO()):
             try:
-                dyn.run(mol, steps=sc["steps"], reuse_P=True, remove_com=None, seed=sc.get("seed", 0))
+                dyn.run(mol, steps=sc["steps"], reuse_P=sc.get("reuse_P", True), remove_com=None, seed=sc.get("seed", 0), **run_kw)
             except _StopAfterCheckpoint:
-                ND.SurfaceHoppingDynamics.run_from_checkpoint(prefix + ".restart.pt", device=torch.device("cpu"))
+                resume(prefix + ".restart.pt", device=torch.device("cpu"))
         q.put({"ok": True})
     except BaseException:
         import traceback
